@@ -30,6 +30,12 @@
                           declaration is allowed) and no attribute is in a namespace declared as default
                           namespace on its element or above (noFlag); C15_idem_needs_noRebind /
                           C15_idem_needs_noFlag: each guard alone does not suffice (closed witnesses)
+    C15_representable     the call keeps a tree inside the C01 domain (`Representable`, decidable)
+    C15_reparses_deep_equal   "… to text that reparses deep-equal to the original", FULL strength: whenever
+                          the tree after the call serialises, the text parses back to exactly that tree,
+                          which is deep_equal to the tree before the call (corollary of C01_roundtrip)
+    C15_roundtrip_partial under NoShadowing (the boundary of C15_serialises_false): a representable tree
+                          that serialised before serialises after, and the text reparses deep_equal
 -/
 import XotModel.Lemmas.ScopeDedup
 import XotModel.Lemmas.ScopeKeepNames
@@ -37,6 +43,8 @@ import XotModel.Lemmas.ScopeInner
 import XotModel.Lemmas.ScopeUndecl
 import XotModel.Lemmas.ScopeIdem
 import XotModel.Lemmas.ScopeIdemGuards
+import XotModel.Lemmas.ScopeRoundTrip
+import XotModel.Props.C01
 
 namespace XotModel.Props
 open XotModel
@@ -342,5 +350,96 @@ example : noFlag {} [] c15RebindWitness := by
   simp [c15RebindWitness, noFlag, noFlag.noFlagList, Tree.attrs, Tree.attributeNodes, Tree.kids,
     Tree.value, Value.category]
 example : (deduplicateNamespaces {} c15RebindWitness []).map declsOfTree = some [[(2, 2)], [], []] := by decide
+
+/-! ### "… to text that reparses deep-equal to the original" (corollaries of C01_roundtrip) -/
+
+/-- The call keeps a tree inside the C01 domain: removing namespace nodes keeps every clause of
+    `Representable` (structure, lexical conditions, unique `xml:id`s, one top-level element). -/
+theorem C15_representable (env : Env) (t t' : Tree) (path : Path) (hr : Representable env t = true)
+    (h : deduplicateNamespaces env t path = some t') : Representable env t' = true :=
+  representable_deduplicateNamespaces t t' path hr h
+
+/-- … and the fragment domain (`parse_fragment`). -/
+theorem C15_representable_fragment (env : Env) (t t' : Tree) (path : Path)
+    (hr : RepresentableFragment env t = true) (h : deduplicateNamespaces env t path = some t') :
+    RepresentableFragment env t' = true :=
+  representableFragment_deduplicateNamespaces t t' path hr h
+
+/-- The second half of the sentence at FULL strength (no `NoShadowing`): for a representable document
+    and a call on ANY node, whenever the tree after the call serialises, the text parses back (same
+    `Xot`) to exactly the tree after the call, interning nothing, and that tree is `deep_equal` to the
+    tree BEFORE the call.  What can go wrong is only the first half (`C15_serialises_false`). -/
+theorem C15_reparses_deep_equal (env : Env) (t t' : Tree) (path : Path) (hr : Representable env t = true)
+    (h : deduplicateNamespaces env t path = some t') (s : Str) (hs : toXmlString env t' [] = .ok s) :
+    ∃ p, parseString .document env s = .ok p ∧ p.tree = t' ∧ p.env = env ∧ deepEqual p.tree t = true := by
+  have hr' := C15_representable env t t' path hr h
+  obtain ⟨p, h1, h2, h3, _⟩ := C01_roundtrip_identical env t' hr' s hs
+  refine ⟨p, h1, h2, h3, ?_⟩
+  have ok : ∀ x, Representable env x = true → x.allNodes (nodeOK env) = true := by
+    intro x hx
+    simp only [Representable, Bool.and_eq_true] at hx
+    exact ((representableFragment_iff env x).mp hx.1).2.2.1
+  rw [h2]
+  exact deepEqual_of_stripNs (ok t' hr') (ok t hr) (C15_frame env t t' path h).1
+
+/-- **C15_roundtrip_partial**: the whole sentence under `NoShadowing` (the boundary of the defect
+    `C15_serialises_false`): a representable document every name of which `to_string` could write
+    before `deduplicate_namespaces(node)` — any node — serialises afterwards, and the text parses back
+    to the tree after the call, which is `deep_equal` to the original. -/
+theorem C15_roundtrip_partial (env : Env) (t t' : Tree) (path : Path) (hr : Representable env t = true)
+    (hd : deduplicateNamespaces env t path = some t') (hg : NoShadowing t)
+    (hw : namesWritable env t [] = some true) :
+    ∃ s p, toXmlString env t' [] = .ok s ∧ parseString .document env s = .ok p ∧ p.tree = t' ∧
+      p.env = env ∧ deepEqual p.tree t = true := by
+  have hr' := C15_representable env t t' path hr hd
+  have hw' := C15_serialises_partial_inner env t t' path hd hg hw
+  have hfrag : RepresentableFragment env t' = true := by
+    simp only [Representable, Bool.and_eq_true] at hr'; exact hr'.1
+  obtain ⟨s, hs⟩ := (C01_serialises env t' hfrag).mpr hw'
+  obtain ⟨p, h1, h2, h3, h4⟩ := C15_reparses_deep_equal env t t' path hr hd s hs
+  exact ⟨s, p, hs, h1, h2, h3, h4⟩
+
+/-- With "serialised before" as the property words it (`to_string` returned a text). -/
+theorem C15_roundtrip_partial_text (env : Env) (t t' : Tree) (path : Path) (hr : Representable env t = true)
+    (hd : deduplicateNamespaces env t path = some t') (hg : NoShadowing t) (s0 : Str)
+    (hs0 : toXmlString env t [] = .ok s0) :
+    ∃ s p, toXmlString env t' [] = .ok s ∧ parseString .document env s = .ok p ∧ p.tree = t' ∧
+      p.env = env ∧ deepEqual p.tree t = true := by
+  have hfrag : RepresentableFragment env t = true := by
+    simp only [Representable, Bool.and_eq_true] at hr; exact hr.1
+  exact C15_roundtrip_partial env t t' path hr hd hg ((C01_serialises env t hfrag).mp ⟨s0, hs0⟩)
+
+/-- Non-vacuity, closed: `<r xmlns="urn:a" xmlns:p="urn:b"><p:c xmlns:q="urn:b"/></r>` — `xmlns:q` is
+    redundant and removed; the hypotheses hold, the result serialises to
+    `<r xmlns="urn:a" xmlns:p="urn:b"><p:c/></r>`. -/
+def c15RtEnv : Env where
+  namespaces := [[], xmlNamespaceUri, ['u', 'r', 'n', ':', 'a'], ['u', 'r', 'n', ':', 'b']]
+  prefixes := [[], ['x', 'm', 'l'], ['p'], ['q']]
+  names := [(['s', 'p', 'a', 'c', 'e'], 1), (['i', 'd'], 1), (['r'], 2), (['c'], 3)]
+
+def c15RtDoc : Tree :=
+  .node .document [.node (.element 2) [.node (.namespace 0 2) [], .node (.namespace 2 3) [],
+    .node (.element 3) [.node (.namespace 3 3) []]]]
+
+example : Representable c15RtEnv c15RtDoc = true ∧ namesWritable c15RtEnv c15RtDoc [] = some true ∧
+    (deduplicateNamespaces c15RtEnv c15RtDoc []).map (fun t' => (declsOfTree t', toXmlString c15RtEnv t' [])) =
+      some ([[], [(0, 2), (2, 3)], []],
+        .ok "<r xmlns=\"urn:a\" xmlns:p=\"urn:b\"><p:c/></r>".toList) := by decide
+
+theorem C15_rt_witness_noShadowing : NoShadowing c15RtDoc := by
+  simp [NoShadowing, c15RtDoc, noShadow, noShadow.noShadowList, nsDecls_node, declsOfKids,
+    Tree.value, Env.xmlPrefix]
+
+example : ∃ t' s p, deduplicateNamespaces c15RtEnv c15RtDoc [] = some t' ∧
+    toXmlString c15RtEnv t' [] = .ok s ∧ parseString .document c15RtEnv s = .ok p ∧ p.tree = t' ∧
+    deepEqual p.tree c15RtDoc = true := by
+  cases hd : deduplicateNamespaces c15RtEnv c15RtDoc [] with
+  | none =>
+    have : (deduplicateNamespaces c15RtEnv c15RtDoc []).isSome = true := by decide
+    rw [hd] at this; cases this
+  | some t' =>
+    obtain ⟨s, p, h1, h2, h3, _, h5⟩ := C15_roundtrip_partial c15RtEnv c15RtDoc t' [] (by decide) hd
+      C15_rt_witness_noShadowing (by decide)
+    exact ⟨t', s, p, rfl, h1, h2, h3, h5⟩
 
 end XotModel.Props
